@@ -45,3 +45,74 @@ proof fn lemma_empty_iff_none<V: Clone>(t: Tree<V>)
     if nsz(t) != 0 { assert(t is Some); assert(view(t).contains_key(dn(t).key)); }
     else { assert(view(t).dom().len() == 0); }
 }
+
+// ---- get_mut: a &mut cursor walks down through Rc::make_mut; what is written through the returned reference changes one value only
+
+/// t2 is the data node t with its left (side == 0), right (side == 1) child or its value (side == 2) replaced
+spec fn node_with<V: Clone>(t: Tree<V>, t2: Tree<V>, side: int, c: Tree<V>) -> bool {
+    &&& is_data(t) && is_data(t2)
+    &&& dn(t2).key == dn(t).key && dn(t2).size == dn(t).size
+    &&& (side == 0 ==> dn(t2).left == c && dn(t2).right == dn(t).right && dn(t2).value == dn(t).value)
+    &&& (side == 1 ==> dn(t2).right == c && dn(t2).left == dn(t).left && dn(t2).value == dn(t).value)
+    &&& (side == 2 ==> dn(t2).left == dn(t).left && dn(t2).right == dn(t).right)
+}
+
+proof fn lemma_okfin_refl<V: Clone>(t: Tree<V>, k: u32)
+    requires tb(t), bal(t)
+    ensures okfin(t, t, k)
+{}
+
+/// replacing a child by a tree that is okfin-related to it gives a tree okfin-related to the parent
+proof fn lemma_okfin_step<V: Clone>(t: Tree<V>, t2: Tree<V>, side: int, c: Tree<V>, k: u32)
+    requires tb(t), bal(t), node_with(t, t2, side, c),
+        side == 0 ==> k < dn(t).key && okfin(lft(t), c, k),
+        side == 1 ==> k > dn(t).key && okfin(rgt(t), c, k),
+        side == 2 ==> k == dn(t).key,
+        side == 0 || side == 1 || side == 2,
+    ensures okfin(t, t2, k),
+        side == 0 && view(lft(t)).contains_key(k) ==> view(t2)[k] == view(c)[k],
+        side == 1 && view(rgt(t)).contains_key(k) ==> view(t2)[k] == view(c)[k],
+        side == 2 ==> view(t2)[k] == dn(t2).value,
+        view(t).contains_key(k) == (if side == 0 { view(lft(t)).contains_key(k) } else if side == 1 { view(rgt(t)).contains_key(k) } else { true }),
+        side == 0 && view(lft(t)).contains_key(k) ==> view(t)[k] == view(lft(t))[k],
+        side == 1 && view(rgt(t)).contains_key(k) ==> view(t)[k] == view(rgt(t))[k],
+        side == 2 ==> view(t)[k] == dn(t).value,
+{
+    let (lo, hi) = choose|lo: int, hi: int| #[trigger] bst(t, lo, hi);
+    let key = dn(t).key;
+    let l = lft(t); let r = rgt(t);
+    assert(bst(l, lo, key as int)); assert(bst(r, key as int, hi));
+    lemma_view_dom(l, lo, key as int); lemma_view_dom(r, key as int, hi);
+    lemma_bal_unfold(t);
+    assert(view(t) == view(l).union_prefer_right(view(r)).insert(key, dn(t).value));
+    if side == 0 {
+        assert(view(c).dom() =~= view(l).dom());
+        assert forall|x: u32| #[trigger] view(c).contains_key(x) implies lo < x < key by { assert(view(l).contains_key(x)); }
+        lemma_tb_bounds(c, lo, key as int);
+        assert(bst(t2, lo, hi));
+        assert(view(t2) == view(c).union_prefer_right(view(r)).insert(key, dn(t).value));
+        assert(view(t2).dom() =~= view(t).dom());
+        assert(!view(r).contains_key(k));
+        assert forall|x: u32| x != k && view(t).contains_key(x) implies #[trigger] view(t2)[x] == view(t)[x] by {
+            if view(l).contains_key(x) { assert(!view(r).contains_key(x)); assert(view(c)[x] == view(l)[x]); }
+        }
+        assert(bal(t2));
+    } else if side == 1 {
+        assert(view(c).dom() =~= view(r).dom());
+        assert forall|x: u32| #[trigger] view(c).contains_key(x) implies key < x < hi by { assert(view(r).contains_key(x)); }
+        lemma_tb_bounds(c, key as int, hi);
+        assert(bst(t2, lo, hi));
+        assert(view(t2) == view(l).union_prefer_right(view(c)).insert(key, dn(t).value));
+        assert(view(t2).dom() =~= view(t).dom());
+        assert(!view(l).contains_key(k));
+        assert forall|x: u32| x != k && view(t).contains_key(x) implies #[trigger] view(t2)[x] == view(t)[x] by {
+            if view(r).contains_key(x) { assert(view(c)[x] == view(r)[x]); }
+        }
+        assert(bal(t2));
+    } else {
+        assert(bst(t2, lo, hi));
+        assert(view(t2) == view(l).union_prefer_right(view(r)).insert(key, dn(t2).value));
+        assert(view(t2).dom() =~= view(t).dom());
+        assert(bal(t2));
+    }
+}
